@@ -100,3 +100,11 @@ pub proof fn lemma_counts_ok_remove(v: CoinsView, id: CoinID)
         assert(v.coins.remove(id) =~= v.coins);
     }
 }
+/// the empty coin tree satisfies the count invariant (genesis base case)
+pub proof fn lemma_counts_ok_empty()
+    ensures counts_ok(CoinsView { coins: IMap::<CoinID, CoinDataHeight>::empty(), counts: IMap::<Address, nat>::empty() })
+{
+    let coins = IMap::<CoinID, CoinDataHeight>::empty();
+    assert(coins.dom() =~= ISet::<CoinID>::empty());
+    assert forall|a: Address| cnt(coins, a) == 0 by { assert(coins_of(coins, a) =~= ISet::<CoinID>::empty()); }
+}
